@@ -55,7 +55,10 @@ SARIF_TEXT = {
     0: '{"runs": [{"tool": {"driver": {"name": "Semgrep OSS"}}, "results": []}]}',
     1: '{"runs": [{"tool": {"driver": {"name": "CodeQL"}}, "results": []}]}',
     2: '{"runs": [{"tool": {"driver": {"name": "other"}}, "results": []}]}',
+    # a Semgrep file whose FIRST run is malformed (no driver name): that run is skipped, the file is still Semgrep's
+    3: '{"runs": [{"tool": {"driver": {}}, "results": []}, {"tool": {"driver": {"name": "Semgrep OSS"}}, "results": []}]}',
 }
+EFFECTIVE_TOOL = {0: 0, 1: 1, 2: 2, 3: 0}
 
 
 class FakeFile:
@@ -165,11 +168,13 @@ def _args(n_sarif, has_sonar, has_dd, has_output, dry_run, empty_name=False, hot
 
 
 def _tool(i: int) -> int:
-    if i % 3 == 0:
+    if i % 4 == 0:
         return 0
-    if i % 3 == 1:
+    if i % 4 == 1:
         return 1
-    return 2
+    if i % 4 == 2:
+        return 2
+    return 3
 
 
 def run_status_inputs(dir_exists: bool, n_sarif: int, t0: int, t1: int, e0: bool, e1: bool, has_sonar: bool, sonar_exists: bool, has_dd: bool, dd_exists: bool, empty_name: bool, hotspots: bool) -> bool:
@@ -233,7 +238,7 @@ def run_status(dir_exists: bool, n_sarif: int, t0: int, t1: int, e0: bool, e1: b
         applicable.add(1)
     else:
         sarif_missing = (n_sarif >= 1 and not e0) or (n_sarif >= 2 and not e1)
-        dup = n_sarif == 2 and e0 and e1 and ENV.sarif_tool["S0"] == ENV.sarif_tool["S1"] and ENV.sarif_tool["S0"] != 2
+        dup = n_sarif == 2 and e0 and e1 and EFFECTIVE_TOOL[ENV.sarif_tool["S0"]] == EFFECTIVE_TOOL[ENV.sarif_tool["S1"]] and ENV.sarif_tool["S0"] != 2
         if sarif_missing or dup or (has_sonar and (not sonar_exists or empty_name)) or (has_dd and not dd_exists):
             applicable.add(1)
         if (az_key % 3 == 2) != (az_ep % 3 == 2) or (ll_key % 3 == 2) != (ll_ep % 3 == 2):
@@ -355,7 +360,7 @@ SPEC = {
         "codemodder.cli.parse_args / ArgumentParser.error / CsvListAction / ListAction / DescribeAction",
     ],
     "bounds": {
-        "quick": "symbolic environment flags of run(), explored in two groups (input conditions: 10 flags; AI settings / report / dry-run: 8 flags): directory exists; 0-2 SARIF files x tool in {semgrep, codeql, other} x exists; Sonar / DefectDojo file given x exists; 4 AI-client environment variables (absent / exported but empty / set); --output given x writable; --dry-run.  CLI: a vocabulary of 17 argument vectors selected by a symbolic index",
+        "quick": "symbolic environment flags of run(), explored in two groups (input conditions: 10 flags; AI settings / report / dry-run: 8 flags): directory exists; 0-2 SARIF files x tool in {semgrep, codeql, other, semgrep preceded by a malformed run} x exists; Sonar / DefectDojo file given x exists; 4 AI-client environment variables (absent / exported but empty / set); --output given x writable; --dry-run.  CLI: a vocabulary of 17 argument vectors selected by a symbolic index",
         "thorough": "same space",
     },
     "assumptions": [
